@@ -26,7 +26,6 @@ pub fn known_compile_triggers(h: &hir::HirSpec) -> Vec<&'static str> {
     if !shadowing_models(h).is_empty() { t.push("schemaNameShadowsPrelude"); }
     if !type_alias_cycles(h).is_empty() { t.push("typeAliasCycle"); }
     if h.schemas.values().any(flatten_field_clash) { t.push("flattenFieldNameClash"); }
-    if h.operations.iter().any(op_url_ident_mismatch) { t.push("urlPlaceholderIdentMismatch"); }
     t
 }
 
